@@ -11,8 +11,10 @@
       sql/sqlcheck/sqlcheck.go         File.loadSpans / tableSpan / TableSpan / ColumnSpan
       sql/sqlite/sqlitecheck/sqlitecheck.go  the first AnalyzerFunc of analyzers() (rewrite of the
                                        new_/copy/drop/rename idiom) and modifyUsingTemp/isAddT/isDropT/
-                                       isRenameT -- the code *after* fix 3711e87 (the new_ table is
-                                       renamed only once the pattern is confirmed)
+                                       isRenameT/isAddTNamed -- the code *after* fix 3711e87 (the new_ table is
+                                       renamed only once the pattern is confirmed) and after the two C18 fixes
+                                       notes/fixes/C18-rebuild-copy-slot.diff (Changes[i+1] must be empty) and
+                                       notes/fixes/C18-rebuild-exact-rename.diff (re-added table compared by name)
       sql/sqlcheck/destructive/destructive.go  Analyzer.Analyze (DS102, DS103; DS101 cannot arise on
                                        SQLite's single schema "main")
 
@@ -431,6 +433,8 @@ Definition trim_prefix (s p : name) : name :=
 
 Definition isAddT (c : change) (prefix : name) : bool :=
   match c with AddTableC T => has_prefix (t_name T) prefix | _ => false end.
+Definition isAddTNamed (c : change) (n : name) : bool :=
+  match c with AddTableC T => name_eqb (t_name T) n | _ => false end.
 Definition isDropT (c : change) (n : name) : bool :=
   match c with DropTableC T => name_eqb (t_name T) n | _ => false end.
 Definition isRenameT (c : change) (from to : name) : bool :=
@@ -438,7 +442,8 @@ Definition isRenameT (c : change) (from to : name) : bool :=
 
 Definition set_name (T : table) (n : name) : table := mkTab n (t_cols T) (t_idxs T).
 
-(** sqlitecheck.go: modifyUsingTemp (after fix 3711e87: add.T.Name = name only on a match). *)
+(** sqlitecheck.go: modifyUsingTemp (after fix 3711e87: add.T.Name = name only on a match;
+    after fix C18-rebuild-exact-rename: isAddTNamed instead of the prefix test isAddT). *)
 Definition modifyUsingTemp (c1 c2 c3 : schange) : option (table * table) :=
   match sc_changes c1 with
   | [AddTableC addT] =>
@@ -452,7 +457,7 @@ Definition modifyUsingTemp (c1 c2 c3 : schange) : option (table * table) :=
           | DropTableC dropT =>
               match c3rest with
               | [] => if isRenameT c3a prefixed nm then Some (dropT, set_name addT nm) else None
-              | [c3b] => if isDropT c3a prefixed && isAddT c3b nm then Some (dropT, set_name addT nm) else None
+              | [c3b] => if isDropT c3a prefixed && isAddTNamed c3b nm then Some (dropT, set_name addT nm) else None
               | _ => None
               end
           | _ => None
@@ -463,17 +468,21 @@ Definition modifyUsingTemp (c1 c2 c3 : schange) : option (table * table) :=
   end.
 
 (** sqlitecheck.go: the AnalyzerFunc at the head of analyzers().  The Go loop `for i …; i += 3`
-    is structural recursion on the remaining list; with fewer than four changes left every change
-    is kept.  Driver.TableDiff cannot fail here (the names were made equal). *)
+    is structural recursion on the remaining list; with fewer than four changes left, or when
+    Changes[i+1] is not empty (fix C18-rebuild-copy-slot), the change is kept.  Driver.TableDiff cannot fail here (the names were made equal). *)
 Fixpoint rewriteTemp (cl : list schange) : list schange :=
   match cl with
   | c0 :: tl =>
       match tl with
-      | _ :: c2 :: c3 :: rest =>
-          match modifyUsingTemp c0 c2 c3 with
-          | Some (prevT, currT) =>
-              mkSC (sc_pos c0) [ModifyTableC currT (tableDiff prevT currT)] :: rewriteTemp rest
-          | None => c0 :: rewriteTemp tl
+      | c1 :: c2 :: c3 :: rest =>
+          match sc_changes c1 with
+          | _ :: _ => c0 :: rewriteTemp tl     (* the copy slot carries schema changes: no group *)
+          | [] =>
+              match modifyUsingTemp c0 c2 c3 with
+              | Some (prevT, currT) =>
+                  mkSC (sc_pos c0) [ModifyTableC currT (tableDiff prevT currT)] :: rewriteTemp rest
+              | None => c0 :: rewriteTemp tl
+              end
           end
       | _ => cl
       end
